@@ -74,7 +74,7 @@ class Prop(PropBase):
         n = 1500 if tier == "quick" else 30000
         for i in range(n):
             nops = rng.choice([1, 2, 3, 5, 8, 13, 21, 34, 60]) if tier == "quick" else rng.choice([1, 3, 8, 21, 60, 150, 400])
-            line = tg.history(rng, nops, sized=rng.random() < 0.8, inputs=(i % 4 == 0))   # every fourth: input, close, re-attach in between
+            line = tg.history(rng, nops, sized=rng.random() < 0.8, inputs=(i % 4 == 0), localised=(i % 5 == 2))   # every fourth: input, close, re-attach in between
             cs.append(Case(line, tag="history", nontrivial=(" we " in line or " ws " in line), cfgs=tg.configs(rng, 2 if tier == "quick" else 3)))
         # correspondence only: arbitrary (non-graphic) glyph bytes and unconstructible colours
         for i in range(500 if tier == "quick" else 10000):
